@@ -245,5 +245,41 @@ def gen():
     deco = sorted(n.name for n in cg.body if isinstance(n, ast.FunctionDef)
                   and any(ast.unparse(d) == "optimizeconst" for d in n.decorator_list))
     out.append("def optimizeconstVisitors : List String := " + llist([lstr(d) for d in deco]))
+    # the optimizer's traversal: the model's `opt` rewrites bottom-up and folds every node in the evaluation context it was
+    # called with.  Read: which methods Optimizer defines, and that the context handed to `optimizer.visit(node, eval_ctx)`
+    # reaches every child visit and every as_const unchanged.
+    visitor = parse("visitor")
+    opt_cls = find_class(optimizer, "Optimizer")
+    opt_methods = [n.name for n in opt_cls.body if isinstance(n, (ast.FunctionDef, ast.AsyncFunctionDef))]
+
+    def forwards(call):
+        return (any(isinstance(a, ast.Starred) and ast.unparse(a.value) == "args" for a in call.args)
+                and any(k.arg is None and ast.unparse(k.value) == "kwargs" for k in call.keywords))
+
+    def calls(fn, pred):
+        return [c for c in ast.walk(fn) if isinstance(c, ast.Call) and pred(ast.unparse(c.func))]
+    nv, nt = find_class(visitor, "NodeVisitor"), find_class(visitor, "NodeTransformer")
+    walk_calls = (calls(method(nv, "visit"), lambda f: f in ("f", "self.generic_visit"))
+                  + calls(method(nv, "generic_visit"), lambda f: f == "self.visit")
+                  + calls(method(nt, "generic_visit"), lambda f: f == "self.visit")
+                  + calls(method(nt, "visit_list"), lambda f: f == "self.visit"))
+    super_calls = calls(gv_fn, lambda f: f == "super().generic_visit")
+    asconst_calls = calls(gv_fn, lambda f: f.endswith(".as_const"))
+    opt_forwards = (len(super_calls) == 1 and forwards(super_calls[0]) and len(asconst_calls) == 1
+                    and [ast.unparse(a) for a in asconst_calls[0].args] == ["args[0] if args else None"]
+                    and not asconst_calls[0].keywords
+                    and [n.arg for n in gv_fn.args.args] == ["self", "node"] and gv_fn.args.vararg is not None
+                    and gv_fn.args.kwarg is not None)
+    oc_calls = calls(oc_fn, lambda f: f == "self.optimizer.visit")
+    oc_passes = len(oc_calls) == 1 and [ast.unparse(a) for a in oc_calls[0].args] == ["node", "frame.eval_ctx"] \
+        and not oc_calls[0].keywords
+    out.append("/-- read: the methods class Optimizer defines (optimizer.py) -/")
+    out.append("def optimizerMethods : List String := " + llist([lstr(m) for m in opt_methods]))
+    out.append("/-- read: Optimizer.generic_visit hands `*args, **kwargs` to NodeTransformer.generic_visit and `args[0] if args else None` to as_const -/")
+    out.append(f"def optimizerForwardsCtx : Bool := {lbool(opt_forwards)}")
+    out.append("/-- read: how many child-visit calls NodeVisitor.visit/generic_visit and NodeTransformer.generic_visit/visit_list make, and how many of them forward `*args, **kwargs` -/")
+    out.append(f"def visitorWalkCalls : Nat × Nat := ({len(walk_calls)}, {sum(1 for c in walk_calls if forwards(c))})")
+    out.append("/-- read: optimizeconst calls `self.optimizer.visit(node, frame.eval_ctx)` (compiler.py) -/")
+    out.append(f"def optimizeconstPassesCtx : Bool := {lbool(oc_passes)}")
     out.append("\nend JinjaV.Gen.ExprTables\n")
     return "ExprTables.lean", "\n".join(out)
